@@ -89,3 +89,216 @@ def make_run(seed: int, max_depth: int = 4, auth_ratio: float = 0.3, n_hi: int =
         flags = make_flags(r)
     return dict(scripts=scripts, cache_vals={**sc, **bc0}, auth=auth, contracts=contracts, plugins=plugins,
                 additional_flags=flags, max_items=mi, max_item_size=ms, callstack_limit=cl, nsig=nsig)
+
+
+# ----------------------------------------------------------------------------- C01
+def make_auth_adv(seed: int):
+    """Structured <witness.., lock> lists: the lock is a generated lock with control flow
+    followed by checks; witnesses come from an adversarial family (early RETURN at every
+    nesting depth, DEF shadowing the handles the lock calls, cache pre-writes of the keys
+    the lock reads, junk below the expected items, call-budget exhaustion)."""
+    from .progs import push, op, block, b1, u16, OP
+    r = random.Random(seed ^ 0xC01)
+    seeds = [bytes([i + 1]) * 32 for i in range(3)]
+    sc = make_sc(r)
+    g = Gen(r, {'timestamp': NOW, **sc}, seeds, max_depth=3, illtyped=0.03)
+    secret = r.randbytes(r.choice([1, 4]))
+
+    def ret_at(depth):
+        b = op('RETURN')
+        for _ in range(depth):
+            c = r.randrange(6)
+            if c == 0:
+                b = op('TRUE') + block('IF', b)
+            elif c == 1:
+                b = op('FALSE') + block('IF_ELSE', g.body(2, 0, 1), b)
+            elif c == 2:
+                b = block('TRY_EXCEPT', b, b'')
+            elif c == 3:
+                b = block('TRY_EXCEPT', op('FALSE') + op('VERIFY'), b)
+            elif c == 4:
+                b = op('TRUE') + block('LOOP', b)
+            else:
+                b = push(b) + op('EVAL')
+        return b
+
+    def witness():
+        parts = []
+        for _ in range(r.randrange(0, 4)):
+            c = r.randrange(9)
+            if c == 0:
+                parts.append(push(secret))
+            elif c == 1:
+                parts.append(ret_at(r.randrange(0, 4)))
+            elif c == 2:
+                h = r.randrange(0, 3)
+                parts.append(op('DEF', b1(h), u16(2), op('TRUE') + op('RETURN')))
+            elif c == 3:
+                k = r.choice([b'k', b'a', b'P'])
+                parts.append(push(secret) + op('WRITE_CACHE', b1(len(k)), k, b1(1)))
+            elif c == 4:
+                parts.append(push(r.randbytes(2)) * r.randrange(1, 3))
+            elif c == 5:
+                h = r.randrange(0, 3)
+                body = op('CALL', b1(h))
+                parts.append(op('DEF', b1(h), u16(len(body)), body) + block('TRY_EXCEPT', op('CALL', b1(h)), b''))
+            elif c == 6:
+                parts.append(op('TRUE'))
+            elif c == 7:
+                parts.append(g.snippet(1))
+            else:
+                parts.append(push(secret) + ret_at(r.randrange(0, 3)))
+        return b''.join(parts)
+
+    def lock():
+        head = b''
+        for _ in range(r.randrange(0, 3)):
+            c = r.randrange(8)
+            if c == 0:
+                head += op('TRUE') + block('IF', g.body(2, 0, 1))
+            elif c == 1:
+                head += block('TRY_EXCEPT', g.body(2, 0, 1), b'')
+            elif c == 2:
+                h = r.randrange(0, 3)
+                head += op('DEF', b1(h), u16(1), op('TRUE')) + op('CALL', b1(h)) + op('VERIFY')
+            elif c == 3:
+                head += op('CALL', b1(r.randrange(0, 3))) + op('VERIFY')
+            elif c == 4:
+                k = r.choice([b'k', b'a', b'P'])
+                head += op('READ_CACHE_SIZE', b1(len(k)), k) + op('POP0')
+            elif c == 5:
+                head += op('FALSE') + block('IF_ELSE', b'', b'')
+            elif c == 6:
+                head += op('TRUE') + block('LOOP', op('POP0') + op('FALSE')) + op('POP0')
+            else:
+                head += push(op('TRUE') + op('VERIFY')) + op('EVAL')
+        tail = push(secret) + op('EQUAL_VERIFY') + r.choice([op('TRUE'), op('TRUE') + op('TRUE'), b'', op('DEPTH') + op('NOT')])
+        return head + tail
+
+    scripts = [witness() for _ in range(r.choice([1, 1, 2, 3]))] + [lock()]
+    mi, ms, cl = r.choice([(1024, 1024, 128), (1024, 1024, 128), (4, 64, 2), (2, 8, 1), (8, 33, 3)])
+    cache_vals = {**sc, **make_bc0(r)}
+    return dict(scripts=scripts, cache_vals=cache_vals, auth=True, contracts={}, plugins={},
+                additional_flags={}, max_items=mi, max_item_size=ms, callstack_limit=cl, nsig=0)
+
+
+def make_auth_random(seed: int):
+    """1..4 random byte strings of 1..64 bytes as an authorization list."""
+    r = random.Random(seed ^ 0xC0100)
+    n = r.choice([1, 2, 2, 3, 4])
+    alpha = list(range(0, 92)) * 2 + list(range(256))
+    scripts = [bytes(r.choice(alpha) for _ in range(r.randrange(1, 65))) for _ in range(n)]
+    mi, ms, cl = make_limits(r)
+    return dict(scripts=scripts, cache_vals=make_sc(r), auth=True, contracts={}, plugins={},
+                additional_flags={}, max_items=mi, max_item_size=ms, callstack_limit=cl, nsig=0)
+
+
+# ----------------------------------------------------------------------------- C07
+def make_hungry(seed: int):
+    """Resource-hungry programs under small and realistic limit triples."""
+    from .progs import push, op, block, b1, u16, OP, enc
+    r = random.Random(seed ^ 0xC07)
+    mi, ms, cl = r.choice([(1024, 1024, 128), (1024, 1024, 128)] +
+                          [(r.randrange(1, 12), r.randrange(1, 70), r.randrange(1, 9)) for _ in range(4)])
+    parts = []
+    for _ in range(r.randrange(1, 6)):
+        c = r.randrange(16)
+        big = r.choice([ms - 1, ms, ms + 1, ms // 2 + 1, 255, 256, 65535])
+        if c == 0:
+            parts.append(push(r.randbytes(max(0, min(big, 70000)))))
+        elif c == 1:
+            parts.append(push(r.randbytes(r.randrange(0, 9))) + op('COPY', b1(r.choice([0, 1, 2, mi - 1, mi, 255]))))
+        elif c == 2:     # doubling by CONCAT in a loop
+            parts.append(push(b'\xaa' * r.randrange(1, 9)) + op('TRUE') + block('LOOP', op('POP0') + op('DUP') + op('CONCAT') + op('TRUE')))
+        elif c == 3:     # unbounded push loop
+            parts.append(op('TRUE') + block('LOOP', r.choice([op('TRUE'), op('DUP'), push(b'\x01\x02'), op('DEPTH') + op('NOT') + op('NOT')])))
+        elif c == 4:     # self-recursive function
+            h = r.randrange(3)
+            body = r.choice([b'', op('TRUE'), op('TRUE') + block('IF', b'')]) + op('CALL', b1(h))
+            parts.append(op('DEF', b1(h), u16(len(body)), body) + op('CALL', b1(h)))
+        elif c == 5:     # self-reproducing EVAL
+            s = op('DUP') + op('EVAL')
+            parts.append(push(s) + s)
+        elif c == 6:     # recursion through nested bodies
+            h = r.randrange(3)
+            inner = op('CALL', b1(h))
+            for _ in range(r.randrange(1, 5)):
+                inner = r.choice([op('TRUE') + block('IF', inner), block('TRY_EXCEPT', inner, b''),
+                                  op('TRUE') + block('IF_ELSE', inner, b'')])
+            parts.append(op('DEF', b1(h), u16(len(inner)), inner) + op('CALL', b1(h)))
+        elif c == 7:
+            parts.append(push(enc(r.choice([-1, 0, ms - 1, ms, ms + 1, 70000, 300_000_000, 2 ** 40, -2 ** 40]))) + op('RANDOM'))
+        elif c == 8:
+            parts.append(push(r.randbytes(3)) + op('SHAKE256', b1(r.choice([0, 1, ms, min(ms + 1, 255), 255]))))
+        elif c == 9:     # multi-item cache key read repeatedly
+            n = r.randrange(0, 5)
+            parts.append(b''.join(push(r.randbytes(2)) for _ in range(n)) + op('WRITE_CACHE', b'\x01k', b1(n))
+                         + op('READ_CACHE', b'\x01k') * r.randrange(1, 4))
+        elif c == 10:
+            parts.append(op(r.choice(['REVERSE']), b1(r.choice([0, 1, 2, mi, 255]))) if r.random() < 0.5
+                         else op('SWAP', b1(r.choice([0, 1, mi, 255])), b1(r.choice([0, 2, 254]))))
+        elif c == 11:    # truncated operands
+            parts.append(r.choice([b1(OP['PUSH1']) + b'\x7f\x01', b1(OP['PUSH2']) + b'\xff\xff\x00', b1(OP['IF']) + b'\xff',
+                                   b1(OP['LOOP']) + b'\x00\x09\x01', b1(OP['DEF']) + b'\x01\x80\x00', b1(OP['MERKLEVAL']) + b'\x00' * 5,
+                                   b1(OP['WRITE_CACHE']) + b'\x02k']))
+        elif c == 12:    # nested loops
+            parts.append(op('TRUE') + block('LOOP', op('TRUE') + block('LOOP', op('POP0') + op('FALSE')) + op('POP0')))
+        elif c == 13:
+            n = r.choice([0, 1, 2, 255])
+            parts.append(b''.join(push(enc(r.randrange(-300, 300))) for _ in range(min(n, 3))) + op(r.choice(['ADD_INTS', 'MULT_INTS']), b1(n)))
+        elif c == 14:
+            parts.append(push(enc(2 ** r.choice([100, 1000, 4000, 8100]))) + op('DUP') + op('MULT_INTS', b'\x02'))
+        else:
+            parts.append(op('POP1', b1(r.choice([0, 1, 255]))) + b1(r.randrange(92, 256)) + b1(r.choice([0, 1, 127, 128, 255])))
+    auth = r.random() < 0.3
+    return dict(scripts=[b''.join(parts)], cache_vals={}, auth=auth, contracts={}, plugins={},
+                additional_flags={}, max_items=mi, max_item_size=ms, callstack_limit=cl, nsig=0)
+
+
+# ----------------------------------------------------------------------------- C08
+def make_cachey(seed: int):
+    """Programs biased to cache-writing instructions with keys that spell the protected
+    string names in every encoding; every writer flag on; embedder values of all types."""
+    from .progs import push, op, block, b1, u16, OP
+    r = random.Random(seed ^ 0xC08)
+    seeds = [bytes([i + 1]) * 32 for i in range(3)]
+    sc = {f'sigfield{i}': r.randbytes(r.choice([1, 8, 32])) for i in range(1, 9) if r.random() < 0.7}
+    sc['timestamp'] = NOW + r.choice([0, 5, -5])
+    for k, v in [('note', b'\x01'), ('memo', 'text'), ('n', 7), ('f', 1.5), ('lst', [b'a', b'b']), ('E', b'e'), ('P', b'p'),
+                 ('x', b'x'), ('IR', b'ir'), ('s', b's')]:
+        if r.random() < 0.4:
+            sc[k] = v
+    names = [k.encode() for k in sc] + [b'returned', b'timestamp\x00', b' sigfield1', b'SIGFIELD1', b'sigfield1 ', b'']
+    g = Gen(r, sc, seeds, max_depth=3, illtyped=0.03, contracts={b'c1': InvokeContract(b'c1')})
+    g.key = lambda: r.choice(names)
+    parts = []
+    for _ in range(r.randrange(2, 9)):
+        c = r.random()
+        if c < 0.45:
+            parts.append(g.s_cache(0))
+        elif c < 0.55:
+            parts.append(push(r.randbytes(3)) + op('POP0') if r.random() < 0.5 else push(b'a') + push(b'b') + op('POP1', b'\x02'))
+        elif c < 0.65:
+            parts.append(block('TRY_EXCEPT', r.choice([op('FALSE') + op('VERIFY'), g.s_cache(1), op('CALL', b'\x09')]), g.s_cache(1)))
+        elif c < 0.8:
+            parts.append(r.choice([g.s_curve, g.s_adapter, g.s_sig, g.s_invoke, g.s_getvalue, g.s_template])(0))
+        elif c < 0.9:
+            parts.append(r.choice([g.s_if, g.s_defcall, g.s_eval, g.s_loop])(1))
+        else:
+            parts.append(g.snippet(1))
+    bc0 = {k: [r.randbytes(2)] for k in names if k and r.random() < 0.2}
+    auth = r.random() < 0.3
+    scripts = [b''.join(parts)]
+    if auth and r.random() < 0.5:
+        scripts.append(g.s_cache(0) + op('TRUE'))
+    return dict(scripts=scripts, cache_vals={**sc, **bc0}, auth=auth, contracts=g.contracts, plugins={},
+                additional_flags={} if auth else {i: True for i in range(11)},
+                max_items=1024, max_item_size=1024, callstack_limit=128, nsig=0)
+
+
+def make_reserved_key(seed: int):
+    """Initial caches that contain the interpreter's own string key (finding F12)."""
+    kw = make_cachey(seed)
+    r = random.Random(seed ^ 0xF12)
+    kw['cache_vals'] = {**kw['cache_vals'], 'returned': r.choice([b'e', True, 1, 'x'])}
+    return kw
